@@ -168,6 +168,10 @@ func (m *MdnsManager) Start(cb api.MdnsReportInterface) error {
 		return err
 	}
 
+	// the provider reports services as soon as it is started, so the receiver
+	// of the reports has to be known before that, otherwise those are lost
+	m.report = cb
+
 	switch m.providerSelection {
 	case MdnsProviderSelectionAll:
 		// First try avahi, if not available use zerconf
@@ -197,8 +201,6 @@ func (m *MdnsManager) Start(cb api.MdnsReportInterface) error {
 	if err := m.AnnounceMdnsEntry(); err != nil {
 		return err
 	}
-
-	m.report = cb
 
 	// catch signals
 	go func() {
